@@ -27,6 +27,8 @@ type TarEntry struct {
 	Data     []byte
 	Base256  []string // numeric header fields stored in base-256 (GNU binary) form
 	Offset   int64
+	ATime    int64 // GNU header / PAX access time (0 = absent)
+	CTime    int64 // GNU header / PAX change time (0 = absent)
 }
 
 func (e *TarEntry) IsDir() bool     { return e.Type == '5' }
@@ -214,6 +216,12 @@ func ParseTar(b []byte) *TarArchive {
 			e.Format = "gnu"
 			e.Uname = cstr(h[265:297])
 			e.Gname = cstr(h[297:329])
+			if v, _, err := numeric(h[345:357]); err == nil {
+				e.ATime = v
+			}
+			if v, _, err := numeric(h[357:369]); err == nil {
+				e.CTime = v
+			}
 		default:
 			e.Format = "v7"
 		}
@@ -279,6 +287,18 @@ func ParseTar(b []byte) *TarArchive {
 					}
 					if n, err := strconv.ParseInt(v, 10, 64); err == nil {
 						e.MTime = n
+					}
+				case "atime", "ctime":
+					t := v
+					if i := strings.IndexByte(t, '.'); i >= 0 {
+						t = t[:i]
+					}
+					if n, err := strconv.ParseInt(t, 10, 64); err == nil {
+						if k == "atime" {
+							e.ATime = n
+						} else {
+							e.CTime = n
+						}
 					}
 				case "uid":
 					if n, err := strconv.ParseInt(v, 10, 64); err == nil {
